@@ -1012,3 +1012,15 @@ func LoopHook(site string) {
 		panic(LoopBudgetExceeded{site})
 	}
 }
+
+// Cost returns the number of preemptions/deviations the execution's script spent.
+func (s *Sched) Cost() int {
+	c := 0
+	for i, p := range s.points {
+		c += altCost(p, s.choices[i])
+	}
+	return c
+}
+
+// Advances returns how often the virtual clock advanced.
+func (s *Sched) Advances() int { return s.advances }
